@@ -486,8 +486,12 @@ func genOut(r *vh.Rng, coin uint64, tokenChance int) outSpec {
 			o.Assets = []asset{{r.Intn(2), r.Intn(2), 0}} // zero quantity
 		default:
 			n := 1 + r.Intn(3)
+			pol := r.Intn(3)
 			for i := 0; i < n; i++ {
-				o.Assets = append(o.Assets, asset{r.Intn(3), r.Intn(3), uint64(1 + r.Intn(5))})
+				if r.Chance(1, 3) {
+					pol = r.Intn(3)
+				}
+				o.Assets = append(o.Assets, asset{pol, r.Intn(3), uint64(1 + r.Intn(5))})
 			}
 		}
 	}
@@ -524,6 +528,28 @@ func returnFor(r *vh.Rng, ins []outSpec, coin uint64, perturb int) *outSpec {
 		o.Assets = append(o.Assets, asset{2, 2, 7})
 	case 4:
 		o.Assets = append(o.Assets, asset{1, 0, 0}) // extra zero-quantity entry: still equal
+	case 5:
+		// give back only some of the asset names of one policy (the policy itself stays)
+		byPol := map[int][]int{}
+		for i, a := range o.Assets {
+			byPol[a.Policy] = append(byPol[a.Policy], i)
+		}
+		var cands []int
+		for _, p := range []int{0, 1, 2} {
+			if len(byPol[p]) >= 2 {
+				cands = append(cands, byPol[p]...)
+			}
+		}
+		if len(cands) > 0 {
+			d := cands[r.Intn(len(cands))]
+			o.Assets = append(o.Assets[:d:d], o.Assets[d+1:]...)
+		}
+	case 6:
+		// a second name under a returned policy that the inputs do not hold
+		if len(o.Assets) > 0 {
+			a := o.Assets[r.Intn(len(o.Assets))]
+			o.Assets = append(o.Assets, asset{a.Policy, (a.Name + 1) % 3, 2})
+		}
 	}
 	if len(o.Assets) > 0 || r.Chance(1, 4) {
 		o.Shape = 1
@@ -595,7 +621,7 @@ func genCase(c *vh.Ctx) rcase {
 		rc.Inputs = append(rc.Inputs, in)
 	}
 	if wantRet {
-		rc.Return = returnFor(r, rc.Inputs, retCoin, []int{0, 0, 0, 1, 2, 3, 4}[r.Intn(7)])
+		rc.Return = returnFor(r, rc.Inputs, retCoin, []int{0, 0, 0, 1, 2, 3, 4, 5, 5, 6}[r.Intn(10)])
 		if r.Chance(1, 12) {
 			// more is returned than the inputs hold: negative balance
 			rc.Return.Coin = total + uint64(1+r.Intn(1000))
@@ -605,7 +631,7 @@ func genCase(c *vh.Ctx) rcase {
 }
 
 func run(c *vh.Ctx) error {
-	c.Res.Rule = "Alonzo..Dijkstra transactions built as CBOR (redeemers in array and map form, collateral inputs, collateral return in array and map output form) decoded by the era decoders; collateral UTxOs decoded by the era output decoders and served by a mock ledger state; fee x percentage mostly not divisible by 100; balance at floor/ceil of the share and one either side; tokens: none / empty map / empty policy / zero quantity / 1-3 assets; return exact or perturbed (quantity+1, asset dropped, asset added, zero entry added), sometimes larger than the inputs (negative balance); the rest of the transaction varied independently (inputs / reference inputs in {0,1,2,7,8,9,16,40}, outputs, certificates); every clause observed twice: its rule function called directly, and the whole era rule list through common.VerifyTransaction with the same ledger state (other rules executed, verdicts discarded); distinct by the whole generator record; non-trivial = has redeemers and at least one collateral input"
+	c.Res.Rule = "Alonzo..Dijkstra transactions built as CBOR (redeemers in array and map form, collateral inputs, collateral return in array and map output form) decoded by the era decoders; collateral UTxOs decoded by the era output decoders and served by a mock ledger state; fee x percentage mostly not divisible by 100; balance at floor/ceil of the share and one either side; tokens: none / empty map / empty policy / zero quantity / 1-3 assets; return exact or perturbed (quantity+1, asset dropped, one of several names of a policy dropped, asset added, second name added under a returned policy, zero entry added), sometimes larger than the inputs (negative balance); the rest of the transaction varied independently (inputs / reference inputs in {0,1,2,7,8,9,16,40}, outputs, certificates); every clause observed twice: its rule function called directly, and the whole era rule list through common.VerifyTransaction with the same ledger state (other rules executed, verdicts discarded); distinct by the whole generator record; non-trivial = has redeemers and at least one collateral input"
 	c.Res.Modelled = []string{
 		"'runs scripts' is taken as 'has at least one redeemer', as the code does",
 		"MultiAsset.Compare is modelled as equality of all per-asset quantities (absent = 0)",
@@ -642,6 +668,14 @@ func run(c *vh.Ctx) error {
 		runCase(c, cf, rcase{Era: era, NRedeemers: 1, Inputs: []outSpec{{Coin: 100, Shape: 1, Assets: []asset{{0, 1, 5}}}}, Fee: 10, Pct: 150, MaxColl: 3})
 		runCase(c, cf, rcase{Era: era, NRedeemers: 1, Inputs: []outSpec{{Coin: 100, Shape: 1, Assets: []asset{{0, 1, 5}}}}, Fee: 10, Pct: 150, MaxColl: 3,
 			Return: &outSpec{Coin: 50, Shape: 1, Assets: []asset{{0, 1, 5}}}})
+		// two names under one policy, only one of them returned / a different second name returned
+		two := []outSpec{{Coin: 100, Shape: 1, Assets: []asset{{0, 1, 5}, {0, 2, 3}, {1, 0, 2}}}}
+		runCase(c, cf, rcase{Era: era, NRedeemers: 1, Inputs: two, Fee: 10, Pct: 150, MaxColl: 3,
+			Return: &outSpec{Coin: 50, Shape: 1, Assets: []asset{{0, 1, 5}, {1, 0, 2}}}})
+		runCase(c, cf, rcase{Era: era, NRedeemers: 1, Inputs: two, Fee: 10, Pct: 150, MaxColl: 3,
+			Return: &outSpec{Coin: 50, Shape: 1, Assets: []asset{{0, 1, 5}, {0, 2, 3}, {1, 0, 2}}}})
+		runCase(c, cf, rcase{Era: era, NRedeemers: 1, Inputs: two, Fee: 10, Pct: 150, MaxColl: 3,
+			Return: &outSpec{Coin: 50, Shape: 1, Assets: []asset{{0, 1, 5}, {0, 0, 3}, {1, 0, 2}}}})
 	}
 	n := c.Pick(1200, 20000)
 	for i := 0; i < n; i++ {
